@@ -196,6 +196,52 @@ def quirk : Json → Bool
   | .obj ms => (valuesOf kVersion ms).any enumObjectForm || (valuesOf kStatement ms).any stmtsQuirk
   | _ => false
 
+/-! ## the stated shapes: what an accepted document must have whatever else it contains -/
+
+def stmtItems : Json → List Json
+  | .arr items => items
+  | j => [j]
+
+/-- the JSON values standing where the grammar has a statement (in the object form of the document,
+    and in the three-element array form the implementation also reads) -/
+def statementNodes : Json → List Json
+  | .obj ms => (valuesOf kStatement ms).flatMap stmtItems
+  | .arr [_, _, v] => stmtItems v
+  | _ => []
+
+/-- the statement is an object; `Sid`, `Effect`, `Condition` occur at most once; every `Sid` is a
+    string or null; there is an `Effect` and every `Effect` names `Allow` or `Deny` (as a string, or in
+    the object form of `enumObjectForm`); there is an action block and a resource block and the first
+    of each is a string or a list of strings; every `Condition` is null or a map of maps of strings /
+    lists of strings -/
+def stmtMust : Json → Bool
+  | .obj ms =>
+    decide ((valuesOf kSid ms).length ≤ 1) && decide ((valuesOf kEffect ms).length ≤ 1) &&
+    decide ((valuesOf kCondition ms).length ≤ 1) &&
+    (valuesOf kSid ms).all (fun v => (optStringValueViol .sidShape v).isNone) &&
+    !(valuesOf kEffect ms).isEmpty &&
+    (valuesOf kEffect ms).all (fun v => (effectValueViol v).isNone || enumObjectForm v) &&
+    (match (membersOf2 kAction kNotAction ms).head? with
+      | some kv => strOrStrs kv.2
+      | none => false) &&
+    (match (membersOf2 kResource kNotResource ms).head? with
+      | some kv => strOrStrs kv.2
+      | none => false) &&
+    (valuesOf kCondition ms).all (fun v => (conditionValueViol false v).isNone)
+  | _ => false
+
+/-- `Version`, `Id`, `Statement` occur at most once; every `Version`/`Id` of an object-form document is
+    null or a known version / a string, and there is a `Statement` -/
+def headMust : Json → Bool
+  | .obj ms =>
+    decide ((valuesOf kVersion ms).length ≤ 1) && decide ((valuesOf kId ms).length ≤ 1) &&
+    decide ((valuesOf kStatement ms).length ≤ 1) &&
+    (valuesOf kVersion ms).all (fun v => (versionValueViol v).isNone || enumObjectForm v) &&
+    (valuesOf kId ms).all (fun v => (optStringValueViol .idShape v).isNone) &&
+    !(valuesOf kStatement ms).isEmpty
+  | .arr _ => true
+  | _ => false
+
 /-! ## "as written" -/
 
 /-- value of the first member named `k`; `null` when there is none -/
@@ -258,8 +304,13 @@ def woomShape : WildcardOneOrMore Bytes → Json → Bool
   | _, _ => false
 
 def kvsShape (m : IMap (OneOrMore Bytes)) : Json → Bool
-  | .obj kvs => kvs.length == m.length && (m.zip kvs).all fun (e, kv) => oomShape e.2 kv.2
+  | .obj kvs => kvs.length == m.length && (m.zip kvs).all fun ek => oomShape ek.1.2 ek.2.2
   | _ => false
+
+def condShape : Option ConditionRule → Json → Bool
+  | some c, .obj ops => ops.length == c.length && (c.zip ops).all fun eo => kvsShape eo.1.2 eo.2.2
+  | some _, _ => false
+  | none, _ => true
 
 def stmtShape (s : Statement) : Json → Bool
   | .obj ms =>
@@ -273,10 +324,7 @@ def stmtShape (s : Statement) : Json → Bool
       | some (.principal (.map m)) => kvsShape m (pick kPrincipal ms)
       | some (.notPrincipal (.map m)) => kvsShape m (pick kNotPrincipal ms)
       | _ => true) &&
-    (match s.condition, pick kCondition ms with
-      | some c, .obj ops => ops.length == c.length && (c.zip ops).all fun (e, op) => kvsShape e.2 op.2
-      | some _, _ => false
-      | none, _ => true)
+    condShape s.condition (pick kCondition ms)
   | _ => false
 
 /-- the JSON written for the value keeps `One` a bare value and `More` a list of the same length,
@@ -285,7 +333,7 @@ def valueShape (p : Policy) : Json → Bool
   | .obj ms =>
     match p.statement, pick kStatement ms with
     | .one s, j => stmtShape s j
-    | .more ss, .arr items => items.length == ss.length && (ss.zip items).all fun (s, j) => stmtShape s j
+    | .more ss, .arr items => items.length == ss.length && (ss.zip items).all fun sj => stmtShape sj.1 sj.2
     | _, _ => false
   | _ => false
 
